@@ -271,6 +271,38 @@ class KernelRun:
         if ":run:" in ans and kkey("step", step) in ans:
             await self.step_op("reset_rerun", step, fn=lambda: wf.find(Step, step).reset_for_rerun())
 
+    async def recycle_under_glob(self):
+        """A glob registered while a step is detached, matching one of its outputs, then the step is
+        re-declared unchanged (full recycle): the declaration must be rejected like a fresh one."""
+        r, wf = self.r, self.wf
+        running = await self.q(lambda: self.steps(StepState.RUNNING))
+        detached = await self.q(lambda: [l for l in self.decls if wf.find(Step, l) is not None
+                                         and wf.find(Step, l).is_detached() and self.decls[l][4]])
+        if not running or not detached:
+            return
+        label = r.choice(detached)
+        cmd, wd, inp, env, out, vol, need, shell, res, ovr = self.decls[label]
+        target = r.choice(list(out))
+        pats = [p for p in PATTERNS if NamedGlob(p)._match_values(target) is not None]
+        if not pats:
+            return
+        pattern = r.choice(pats)
+        ng = NamedGlob(pattern)
+        ng.extend([target] if r.random() < 0.5 else [])
+        creator = r.choice(running)
+        found = sorted(str(p) for p in ng.files())
+        await self.tx(f"k nglob {kkey('step', creator)} {hexs(pattern)} {hexlist(found)}",
+                      lambda: wf.register_nglob(wf.find(Step, creator), ng))
+
+        def fn():
+            return wf.define_step(wf.find(Step, creator), cmd, inp_paths=list(inp), env_deps=list(env),
+                                  out_paths=list(out), vol_paths=list(vol), workdir=wd, need=need,
+                                  resources=dict(res) or None, shell=shell, env_overrides=dict(ovr) or None)
+
+        line = (f"k define {kkey('step', creator)} {hexs(cmd)} {hexs(wd)} {hexlist(inp)} {hexlist(env)} {hexlist(out)} "
+                f"{hexlist(vol)} {need.name} {int(shell)} 0 {units_tok(res)} {pairs_tok(ovr)}")
+        await self.tx(line, fn, lambda v: hexlist(sorted(v)))
+
     async def static(self):
         r, wf = self.r, self.wf
         running = await self.q(lambda: self.steps(StepState.RUNNING))
@@ -574,7 +606,7 @@ class KernelRun:
         await self.define(boot=True)
         await self.pop()
         menu = [(self.define, 20), (self.static, 8), (self.declstatic, 5), (self.tree, 4), (self.nglob, 4),
-                (self.amend, 8),
+                (self.amend, 8), (self.recycle_under_glob, 3),
                 (self.confirm, 12), (self.external, 6), (self.pop, 18), (self.run_step, 18),
                 (self.reset_rerun, 3), (self.hold_release, 5), (self.mark_pending, 2), (self.end_phase, 3),
                 (self.restart, 3)]
